@@ -500,6 +500,11 @@ fn specs(tier: Tier) -> Vec<Spec> {
                         if tier == Tier::Quick && int_result && (np > 12 || rcount == 3) {
                             continue;
                         }
+                        // 4 rows (thorough only): unit result; for the tuple types only with a catch-all
+                        // (without one, every non-exhaustive matrix costs one program per value)
+                        if rcount == 4 && (int_result || (np > 7 && !catch_all)) {
+                            continue;
+                        }
                         out.push(Spec { ty: ty.into(), rows: idx.clone(), catch_all, int_result, as_let: false, only_value: None, twice: false });
                         if rcount <= 2 && np <= 30 && !(tier == Tier::Quick && rcount == 2 && np > 12) {
                             out.push(Spec { ty: ty.into(), rows: idx.clone(), catch_all, int_result, as_let: false, only_value: None, twice: true });
@@ -554,7 +559,7 @@ impl Family for Patterns {
         &["C06", "C01", "C02", "C04"]
     }
     fn rule(&self) -> &'static str {
-        "scrutinee types {bool,int32,uint8,string,(bool,bool),(bool,int32),E,Opt[bool],S,(E2,E2),(int32,int32),(string,int32),(int32,string),(int32,int32,int32)}; all patterns (wildcard, variable, 2 literals, constructor/tuple/struct with sub-patterns; depth 2 for S and (E2,E2); columns of all-literal-typed tuples use {_, lit0, lit1}); all matrices of <= 3 rows for types with <= 12 patterns, else <= 2 rows, plus the 4-row matrices of (int32,int32) over the 8 tuple patterns with a literal, with a catch-all (quick) / <= 4 rows for <= 12 patterns, <= 3 rows for <= 30 patterns, else 2 (thorough), with and without a trailing catch-all, results unit and int32; every destructuring let; matrices of <= 2 rows also with the scrutinee held in a variable that is matched twice; each matrix applied to every value of the type (one program per value when some value matches no row); the scrutinee is an effect probe; each arm prints its index and every variable it binds. non-trivial = matrices where a row other than the first is selected for some value, or some value matches no row; distinct = distinct source text"
+        "scrutinee types {bool,int32,uint8,string,(bool,bool),(bool,int32),E,Opt[bool],S,(E2,E2),(int32,int32),(string,int32),(int32,string),(int32,int32,int32)}; all patterns (wildcard, variable, 2 literals, constructor/tuple/struct with sub-patterns; depth 2 for S and (E2,E2); columns of all-literal-typed tuples use {_, lit0, lit1}); all matrices of <= 3 rows for types with <= 12 patterns, else <= 2 rows, plus the 4-row matrices of (int32,int32) over the 8 tuple patterns with a literal, with a catch-all (quick) / <= 4 rows for <= 12 patterns (unit result; tuple types with a catch-all only), <= 3 rows for <= 30 patterns, else 2 (thorough), with and without a trailing catch-all, results unit and int32; every destructuring let; matrices of <= 2 rows also with the scrutinee held in a variable that is matched twice; each matrix applied to every value of the type (one program per value when some value matches no row); the scrutinee is an effect probe; each arm prints its index and every variable it binds. non-trivial = matrices where a row other than the first is selected for some value, or some value matches no row; distinct = distinct source text"
     }
     fn cases(&self, tier: Tier) -> Box<dyn Iterator<Item = Value> + '_> {
         let n = specs(tier).len();
